@@ -33,6 +33,8 @@ struct E1Config {
     int silentSuffix = 0;       // >= 2: from every stored state, all op sequences of this length without observers in between
     size_t silentSuffixStates = 1000000;
     unsigned long long stopAfterViolations = 2000;
+    std::set<long> allowedValues;        // MULTI: if non-empty, transitions leading to a multiplicity outside this set are cut
+    std::vector<unsigned> bigSizes;      // non-empty: "scaled" mode - start from structured graphs of these sizes
     bool observeEveryTransition = false; // run the state oracle on the result of every transition, not only on new states
     bool mergeDifferential = false; // one-step differential check whenever a transition merges into a stored state
     bool silentReduced = false; // silent-suffix pass uses one value per value-carrying operation kind
@@ -70,8 +72,15 @@ template <class G> class Explorer {
             o.k = k; o.i = i; o.j = j; o.v = v; o.force = f;
             ops.push_back(o);
         };
-        for (unsigned i = 0; i < n; ++i)
-            for (unsigned j = 0; j < n; ++j) {
+        std::vector<unsigned> idx;
+        if (cfg.bigSizes.empty() || n <= 4) {
+            for (unsigned i = 0; i < n; ++i) idx.push_back(i);
+        } else { // scaled mode: vertex arguments restricted to the interesting indices
+            for (unsigned c : {0u, 1u, n / 2, n - 2, n - 1})
+                if (std::find(idx.begin(), idx.end(), c) == idx.end()) idx.push_back(c);
+        }
+        for (unsigned i : idx)
+            for (unsigned j : idx) {
                 for (int f = 0; f <= (cfg.force ? 1 : 0); ++f) {
                     if (has(ADD))
                         for (long v : cfg.addValues) push(ADD, i, j, v, f);
@@ -85,7 +94,7 @@ template <class G> class Explorer {
                 if (has(SET_VALUE))
                     for (long v : cfg.setValues) push(SET_VALUE, i, j, v, false);
             }
-        for (unsigned v = 0; v < n; ++v)
+        for (unsigned v : idx)
             if (has(REMOVE_VERTEX)) push(REMOVE_VERTEX, v, 0, 0, false);
         if (has(REMOVE_LOOPS)) push(REMOVE_LOOPS, 0, 0, 0, false);
         if (has(CLEAR)) push(CLEAR, 0, 0, 0, false);
@@ -115,6 +124,7 @@ template <class G> class Explorer {
         for (auto &p : m.e) {
             if (p.second.copies > cfg.maxCopies) return false;
             if (T::fam == MULTI && p.second.v > cfg.maxValue) return false;
+            if (T::fam == MULTI && !cfg.allowedValues.empty() && !cfg.allowedValues.count(p.second.v)) return false;
             // copies of one pair carrying different multiplicities / weights: the totals then depend on
             // the whole history and no property specifies them - such histories are not followed
             if (T::fam != PLAIN && p.second.vMixed) return false;
@@ -282,6 +292,61 @@ template <class G> class Explorer {
             frontier.push_back((int)recs.size() - 1);
             report(sink, n0, {});
         }
+        // scaled mode: structured graphs of larger sizes, built through the public API as ordinary histories
+        for (unsigned n0 : cfg.bigSizes) {
+            for (int family = 0; family < 11; ++family) {
+                std::vector<Op> build;
+                long vcount = 0;
+                auto addE = [&](unsigned i, unsigned j) {
+                    Op o;
+                    o.k = ADD; o.i = i; o.j = j;
+                    o.v = cfg.addValues.empty() ? 0 : cfg.addValues[(size_t)(vcount++) % cfg.addValues.size()];
+                    if (T::fam == MULTI && o.v == 0) o.v = 1;
+                    build.push_back(o);
+                };
+                if (family == 1) for (unsigned i = 0; i + 1 < n0; ++i) addE(i, i + 1);
+                if (family == 2) { for (unsigned i = 0; i < n0; ++i) addE(i, (i + 1) % n0); addE(n0 - 1, n0 - 1); }
+                if (family == 3) for (unsigned i = 0; i + 1 < n0; ++i) addE(n0 - 1, i);
+                if (family == 4) for (unsigned i = n0 - 1; i >= 1; --i) addE(i, 0);
+                if (family == 5) { if (n0 > 9) continue; for (unsigned i = 0; i < n0; ++i) for (unsigned j = 0; j < n0; ++j) addE(i, j); }
+                if (family == 6) for (unsigned i = 0; i < n0; ++i) for (unsigned j = 0; j < n0; ++j) if ((i * 7 + j * 3) % 5 == 0) addE(i, j);
+                if (family == 7) for (unsigned i = n0; i-- > 0;) for (unsigned j = n0; j-- > 0;) if ((i + j) % 3 == 0) addE(i, j);
+                // rebuilt after a bulk removal: whatever a bulk removal leaves behind meets a large neighbourhood
+                auto bulk = [&](OpKind k, unsigned v) { Op o; o.k = k; o.i = v; build.push_back(o); };
+                if (family == 8) { for (unsigned i = 1; i < n0; ++i) addE(0, i); bulk(REMOVE_VERTEX, 0); for (unsigned i = 2; i < n0; ++i) addE(0, i); }
+                if (family == 9) { for (unsigned i = 0; i + 1 < n0; ++i) { addE(n0 - 1, i); addE(i, i); } bulk(REMOVE_LOOPS, 0); bulk(CLEAR, 0); for (unsigned i = 1; i < n0; ++i) addE(i, 0); addE(n0 - 1, 1); }
+                if (family == 10) { for (unsigned i = 0; i < n0; ++i) addE(i, (i * 5 + 1) % n0); bulk(REMOVE_VERTEX, n0 / 2); for (unsigned i = 0; i + 1 < n0; ++i) addE(n0 / 2, i == n0 / 2 ? n0 - 1 : i); }
+                breadcrumb(cfg.name + " scaled start n=" + std::to_string(n0) + " family " + std::to_string(family));
+                G g(n0);
+                Model m;
+                m.directed = T::directed;
+                m.n = n0;
+                int parent = -1;
+                // root record of the chain (not indexed, not expanded)
+                recs.push_back(Rec{g, m, -1, Op(), 0});
+                parent = (int)recs.size() - 1;
+                for (auto &o : build) {
+                    applyModel(m, o, T::fam);
+                    applyReal(g, o);
+                    recs.push_back(Rec{g, m, parent, o, 0});
+                    parent = (int)recs.size() - 1;
+                }
+                std::string k = keyOf(g, cfg.completeKey);
+                if (index.count(k)) continue;
+                ClauseSink sink;
+                sink.property = prop;
+                newStateClauses(g, m, sink);
+                clauseEvals += sink.evaluated;
+                index[k] = parent;
+                abstractValues.insert(m.str());
+                frontier.push_back(parent);
+                if (!sink.failures.empty()) {
+                    unsigned start;
+                    auto h = historyOf(parent, &start);
+                    report(sink, start, h);
+                }
+            }
+        }
         while (!frontier.empty()) {
             if (clock_().expired()) { rep.cap("deadline reached with " + std::to_string(frontier.size()) + " states unexpanded"); break; }
             if (rep.violations() > cfg.stopAfterViolations) { // the verdict is decided; a broken implementation may have an unbounded state space
@@ -401,7 +466,7 @@ template <class G> class Explorer {
             if (keyOf(g, cfg.completeKey) != keyOf(recs[s].g, cfg.completeKey) || !(m == recs[s].m) || !(g == recs[s].g))
                 rep.violation("HARNESS-NONDETERMINISM:" + prop + ":" + cfg.name + ":replay", "stored state differs from the state reached by replaying its history", replayArgs(start, h));
         }
-        if (recs.size() > cfg.replayCap) rep.cap(cfg.name + ": canon-on-replay cap " + std::to_string(cfg.replayCap));
+        if (recs.size() > cfg.replayCap) rep.info["note:" + cfg.name] = jstr("canon-on-replay self-check limited to the first " + std::to_string(cfg.replayCap) + " stored states");
 
         // C06: all pairs of stored states
         unsigned long long pairs = 0;
